@@ -1,6 +1,7 @@
 package c18
 
 import (
+	"sort"
 	"bytes"
 	"encoding/json"
 	"fmt"
@@ -17,6 +18,44 @@ import (
 type freeRec = map[string]any
 
 var reRaceFunc = regexp.MustCompile(`(?m)^\s+(seehuhn\.de/go/pdf[^\s(]*)\(`)
+
+// raceKeys splits the race detector's output into reports and keys each by
+// the library functions on top of the two conflicting accesses.
+func raceKeys(stderr string) map[string]string {
+	out := map[string]string{}
+	for _, blk := range strings.Split(stderr, "WARNING: DATA RACE")[1:] {
+		if k := strings.Index(blk, "\n=================="); k >= 0 {
+			blk = blk[:k]
+		}
+		var fns []string
+		for _, part := range regexp.MustCompile(`(?m)^(Write at|Read at|Previous write at|Previous read at|Atomic|Previous atomic)`).Split(blk, -1)[1:] {
+			if k := strings.Index(part, "\n\n"); k >= 0 {
+				part = part[:k] // the stack of this access only
+			}
+			fn := "outside-the-library"
+			if m := reRaceFunc.FindStringSubmatch(part); m != nil {
+				fn = strings.TrimPrefix(m[1], "seehuhn.de/go/pdf/")
+				fn = strings.TrimPrefix(fn, "seehuhn.de/go/")
+			}
+			fns = append(fns, fn)
+		}
+		sort.Strings(fns)
+		if len(fns) > 1 && fns[0] == fns[1] {
+			fns = fns[:1]
+		}
+		key := "race/" + strings.Join(fns, "+")
+		if len(fns) == 0 {
+			key = "race/unknown"
+		}
+		if _, seen := out[key]; !seen {
+			if len(blk) > 3000 {
+				blk = blk[:3000]
+			}
+			out[key] = blk
+		}
+	}
+	return out
+}
 
 // buildFree builds cmd/c18free with the race detector against the tree under test.
 func buildFree(ctx *core.Ctx) (string, error) {
@@ -71,18 +110,11 @@ func freeRunning(ctx *core.Ctx) error {
 	rounds := ctx.Pick(60, 500)
 	seed := ctx.Seed*7919 + 11
 	recs, stderr, err := runFree(bin, seed, rounds)
-	if strings.Contains(stderr, "WARNING: DATA RACE") {
-		fn := "unknown"
-		if m := reRaceFunc.FindStringSubmatch(stderr); m != nil {
-			fn = m[1]
-		}
-		i := strings.Index(stderr, "WARNING: DATA RACE")
-		end := i + 3000
-		if end > len(stderr) {
-			end = len(stderr)
-		}
-		ctx.Violation("race/"+fn, "the race detector reports a data race while goroutines share one Reader/Extractor: an execution that is not a behaviour of any model with the specification's atomic actions",
-			map[string]any{"free": true, "seed": seed, "rounds": rounds, "report": stderr[i:end]})
+	// one verdict per kind of race: the functions of the library that made
+	// the two conflicting accesses
+	for key, report := range raceKeys(stderr) {
+		ctx.Violation(key, "the race detector reports a data race while goroutines share one Reader/Extractor: an execution that is not a behaviour of any model with the specification's atomic actions",
+			map[string]any{"free": true, "seed": seed, "rounds": rounds, "report": report})
 	}
 	if err != nil && !strings.Contains(stderr, "WARNING: DATA RACE") {
 		if strings.Contains(stderr, "all goroutines are asleep") || strings.Contains(stderr, "timed out") {
